@@ -119,6 +119,11 @@ def mk_settings(scn, side):
         s.keyExchangeNames = names
         if kx in ("dhe", "anon"):
             s.dhGroups = ["ffdhe2048"]
+    if scn.get("nohb"):
+        s.use_heartbeat_extension = False
+    if scn.get("nocomp_srv") and side == "server" and v == (3, 4):
+        # the server does not offer compress_certificate in its CertificateRequest
+        s.certificate_compression_receive = []
     if side == "server":
         if scn.get("tickets"):
             s.ticketKeys = [b"\x22" * 32]
@@ -185,7 +190,8 @@ def start(scn, L, session=None, cache=None):
 HS_KINDS = {0: "hello_request", 1: "client_hello", 2: "server_hello", 4: "new_session_ticket",
             5: "end_of_early_data", 8: "encrypted_extensions", 11: "certificate",
             12: "server_key_exchange", 13: "certificate_request", 14: "server_hello_done",
-            15: "certificate_verify", 16: "client_key_exchange", 20: "finished", 24: "key_update",
+            15: "certificate_verify", 16: "client_key_exchange", 20: "finished", 22: "certificate_status",
+            24: "key_update",
             25: "compressed_certificate", 67: "next_protocol"}
 HRR_RANDOM = bytes.fromhex("CF21AD74E59A6111BE1D8C021E65B891C2A211167ABB8C5E079E09E2C8A8339C")
 
@@ -347,6 +353,9 @@ class Editor(object):
             return Message(22, bytearray(b"\x05\x00\x00\x00"))
         if kind == "heartbeat":
             return Heartbeat().create(1, bytearray(b"ping"), 16)
+        if kind == "certificate_status":
+            # CertificateStatus (status_request): status_type ocsp(1), a 1-byte response
+            return Message(22, bytearray(b"\x16\x00\x00\x05\x01\x00\x00\x01\x00"))
         b = self.bank.get(kind)
         if b is None:
             return None
@@ -823,8 +832,8 @@ def params_of(scn, victim, resumed=None):
          "npn": bool(scn.get("npn")) and fam != "tls13" and not resumed,
          "hrr": bool(scn.get("hrr")) and fam == "tls13",
          "resume": res, "resumed": resumed,
-         "compcert": fam == "tls13" and (victim == "server" or not scn.get("nocomp")),
-         "hb": fam != "ssl3",
+         "compcert": fam == "tls13" and (not scn.get("nocomp_srv") if victim == "server" else not scn.get("nocomp")),
+         "hb": fam != "ssl3" and not scn.get("nohb"),
          "compat": fam == "tls13" and not scn.get("nosid"),
          # TLS 1.3: the client holds a key pair (offers post_handshake_auth)
          "keypair": fam == "tls13" and bool(scn.get("keypair") or scn.get("clientcert"))}
@@ -846,7 +855,7 @@ LETTER = {"hello_request": "h", "client_hello": "C", "server_hello": "S", "hrr":
           "finished": "f", "new_session_ticket": "t", "next_protocol": "n", "encrypted_extensions": "e",
           "end_of_early_data": "y", "key_update": "u", "alert_warning": "w", "alert_fatal": "F",
           "close_notify": "o", "no_certificate_alert": "N", "heartbeat": "b", "app_data": "a",
-          "empty_app_data": "m", "unknown": "?", "client_hello_v2": "2"}
+          "empty_app_data": "m", "unknown": "?", "client_hello_v2": "2", "certificate_status": "T"}
 
 
 def rfc_regex(p):
@@ -1088,6 +1097,14 @@ def all_scenarios():
     add(False, ver="tls13", kx="dhe")
     add(True, ver="tls13", kx="psk")
     add(False, ver="tls13", kx="ecdhe", keypair=True)
+    # what was NOT offered must not be taken: certificate compression off in either direction (with
+    # and without CertificateRequest / client certificate), heartbeat off
+    add(False, ver="tls13", kx="ecdhe", reqcert=True, nocomp=True)
+    add(False, ver="tls13", kx="ecdhe", reqcert=True, clientcert=True, nocomp=True)
+    add(False, ver="tls13", kx="ecdhe", reqcert=True, nocomp_srv=True)
+    add(False, ver="tls13", kx="ecdhe", reqcert=True, clientcert=True, nocomp_srv=True)
+    add(False, ver="tls13", kx="ecdhe", nohb=True)
+    add(False, ver="tls12", kx="ecdhe", nohb=True)
     # client without middlebox compatibility mode (empty legacy_session_id: nobody sends a CCS)
     add(True, ver="tls13", kx="ecdhe", nosid=True)
     add(False, ver="tls13", kx="ecdhe", nosid=True, hrr=True)
@@ -1164,7 +1181,7 @@ INSERT_KINDS = ["hello_request", "client_hello", "server_hello", "hrr", "certifi
                 "server_key_exchange", "certificate_request", "server_hello_done", "client_key_exchange",
                 "certificate_verify", "ccs", "finished", "new_session_ticket", "next_protocol", "encrypted_extensions",
                 "end_of_early_data", "key_update", "app_data", "empty_app_data", "alert_warning", "heartbeat",
-                "no_certificate_alert"]
+                "no_certificate_alert", "certificate_status"]
 CORE_KINDS = ["ccs", "finished", "app_data", "hello_request", "client_hello", "server_hello_done", "key_update",
               "new_session_ticket", "certificate_request", "certificate_verify", "heartbeat"]
 
@@ -1193,6 +1210,51 @@ def single_deviations(orig, kinds_at, replace_at=None):
 
 
 MUST_ALIGN = ("client_hello", "end_of_early_data", "server_hello", "hrr", "finished", "key_update")
+
+
+ALT_FORM = {"certificate": ["compressed_certificate", "no_certificate_alert"],
+            "compressed_certificate": ["certificate"]}
+
+
+def alt_form_deviations(orig, victim, ver):
+    """every optional message and every alternative form of a message, put where it would
+    legitimately travel if it had been negotiated - run in EVERY configuration (the oracle knows
+    from the negotiated parameters whether it may be taken): compressed <-> plain Certificate,
+    no_certificate alert, CertificateStatus, CertificateRequest / CertificateVerify where none is
+    due, NewSessionTicket and NextProtocol around the CCS, EndOfEarlyData, heartbeat"""
+    devs = []
+    n = len(orig)
+    for j, k in enumerate(orig):
+        for a in ALT_FORM.get(k, []):
+            devs.append([("replace", j, a)])
+            if a == "no_certificate_alert" and "certificate_verify" in orig[j:]:
+                devs.append([("replace", j, a), ("skip", orig.index("certificate_verify", j))])
+        if k in ("certificate", "compressed_certificate"):
+            for a in ("certificate_status", "certificate_verify", "certificate_request"):
+                if j + 1 >= n or orig[j + 1] != a:
+                    devs.append([("insert", j + 1, a)])
+        if k in ("server_hello_done", "encrypted_extensions"):
+            pos = j if k == "server_hello_done" else j + 1
+            if not (pos < n and orig[pos] == "certificate_request") and not (pos > 0 and orig[pos - 1] == "certificate_request"):
+                devs.append([("insert", pos, "certificate_request")])
+        if k == "client_key_exchange" and (j + 1 >= n or orig[j + 1] != "certificate_verify"):
+            devs.append([("insert", j + 1, "certificate_verify")])
+        if k == "ccs" and ver != "tls13":
+            if j == 0 or orig[j - 1] != "new_session_ticket":
+                devs.append([("insert", j, "new_session_ticket")])
+            if j + 1 < n and orig[j + 1] != "next_protocol":
+                devs.append([("insert", j + 1, "next_protocol")])
+        if k == "finished":
+            for a in ("end_of_early_data", "heartbeat", "certificate_status"):
+                devs.append([("insert", j, a)])
+    if n > 1:
+        devs.append([("insert", 1, "heartbeat")])
+    # after the peer's last message (for the endpoint that completes on it: on the established
+    # connection): what must never be taken late
+    for a in ("ccs", "finished", "new_session_ticket", "certificate_request", "certificate",
+              "client_hello" if victim == "server" else "hello_request"):
+        devs.append([("insert", n, a)])
+    return devs
 
 
 def targeted_deviations(orig, victim, ver=None):
@@ -1521,7 +1583,7 @@ def run(ctx):
                        "RFC grammar oracle: harness/props/c06.py:rfc_regex (NewSessionTicket iff session_ticket extension, RFC 5077 3.3)"]
     rng = ctx.rng
     thorough = ctx.thorough()
-    budget = 1150.0 if thorough else 150.0
+    budget = 1150.0 if thorough else 105.0
     t0 = time.time()
     pending = []
     scns = sorted(all_scenarios(), key=lambda sm: not sm[1])      # main configurations first
@@ -1546,6 +1608,11 @@ def run(ctx):
             orig = obs["orig"]
             honest_traces[scn_name(scn) + "/" + victim] = " ".join(obs["received"])
             full = main or thorough
+            for edits in alt_form_deviations(orig, victim, scn["ver"]):
+                kw = prime(scn) if scn.get("res") else {}
+                evaluate(ctx, pending, scn, victim, edits, bank, kw, label="alt-form")
+                if len(pending) >= 300:
+                    flush(ctx, pending)
             elapsed = time.time() - t0
             if elapsed > budget:
                 stats["skipped_for_time"] += 1
